@@ -212,6 +212,12 @@ Section DistPrim.
     else
       let '(dist, cpp2) := point_to_plane p1 p2 n2 in (dist, p1, cpp2).
 
+  (** the literal 1e-6 = 4722366482869645 / 2^72 exactly; written as a quotient of two exactly
+      representable numbers because [cst] of the binary64 instance converts numerator and
+      denominator through 63-bit integers (2^72 does not fit); both instances give exactly
+      the binary64 value of 1e-6 *)
+  Definition eps6 : F := cst (4722366482869645 # 68719476736) / cst (68719476736 # 1).
+
   (** np.argmin / np.argmax: index of the first minimal / maximal element *)
   Fixpoint argbest (better : F -> F -> bool) (l : list F) (i : nat) (bi : nat) (bv : F) : nat :=
     match l with
@@ -232,8 +238,7 @@ Section DistPrim.
     let tmin := nth imin ts zero in
     let tmax := nth imax ts zero in
     if tmin * tmax <? zero then
-      let '(d, c1, c2) := line_segment_to_plane (nth imin pts vzero) (nth imax pts vzero) pp pn
-                                                (cst (4722366482869645 # 4722366482869645213696)) in
+      let '(d, c1, c2) := line_segment_to_plane (nth imin pts vzero) (nth imax pts vzero) pp pn eps6 in
       (d, c1, c2, 0%nat)
     else
       let ic := argmin (map abs ts) in
